@@ -74,7 +74,11 @@ def main():
     finally:
         sh(f"git -C /repo worktree remove --force {wt}")
         shutil.rmtree(wt, ignore_errors=True)
-        dst = os.path.join(V, "seeded", pid)
+        name = pid
+        for a in sys.argv:
+            if a.startswith("--name="):
+                name = a.split("=", 1)[1]
+        dst = os.path.join(V, "seeded", name)
         os.makedirs(dst, exist_ok=True)
         for f in ("patch.diff", "demo.py"):
             if os.path.exists(os.path.join(src, f)) and \
